@@ -278,6 +278,24 @@ def impl(op, backend):
         return "ok %d" % int(_mk_val(zx, wx, fx) in iv)
     _, unit, amount, za, wa, fa, zb, wb, fb, ab, limit = op
     iv = p.Interval(_mk_val(za, wa, fa), _mk_val(zb, wb, fb), absolute=bool(ab))
+    # An Interval can be iterated any number of times, also after an abandoned or a still-running iteration: a
+    # deterministic function of the op chooses a HISTORY on the same object before the measured iteration.
+    hist = (wa // 1000003 + wb // 7 + unit + amount) % 4
+    try:
+        if hist == 1:
+            g = iv.range(UNITS[unit], amount)
+            next(g, None)
+            next(g, None)          # abandoned after two values
+        elif hist == 2:
+            for k, _x in enumerate(iv.range(UNITS[unit], amount)):
+                if k > limit:
+                    break          # a complete (or capped) earlier iteration
+        elif hist == 3:
+            g1 = iv.range(UNITS[unit], amount)
+            next(g1, None)         # a generator still in flight while the measured one runs
+            _ = (_mk_val(za, wa, fa) in iv)
+    except (OverflowError, ValueError):
+        pass
     it = iter(iv) if (unit == 3 and amount == 1 and (wa + wb) % 2 == 0) else iv.range(UNITS[unit], amount)
     pairs = []
     for x in it:
